@@ -34,6 +34,7 @@ func runC07(c *Ctx) {
 	recoveryErrors(c, "R6")
 	rebuildOnOpen(c, "R7")
 	recoveryHeightAgreement(c, "R7")
+	cacheTilesPersistedAlways(c, "R7")
 	c.Rule("R8", "no store write bypasses the write-ahead log", 1)
 	walNeverDisabled(c, "R8")
 }
